@@ -59,5 +59,10 @@ TEXTS = {
   "level": "exploration: every report of a SecAck board must produce exactly one mirror with the same detector number and payload, in submission order, on the wire without any harness flush as soon as the node is not stalled and its budget has room (immediately when nothing blocks); boards without the feature and unknown nodes never receive a mirror type; at the end every mirror is out exactly once",
   "note": "the simulated bus stops answering after startup so budgets fill up; only report layouts defined by the BiDiB specification are generated (bitmap base and size multiples of 8, 5-byte position reports); the harness flushes only directly after its own low-level sends",
  },
+ "C12": {
+  "technique": "grammar-based fuzzing with rapidcheck (shrinking across crashes, fork per case, ASan+UBSan): generated uplink streams of valid traffic, CRC-valid packets with adversarial length / address / type / field / inner-length values, raw noise and oversized packets, in debug and normal mode; oracle = sanitizer silence + liveness probe (well-formed packets after the stream must still be delivered / tracked) + clean stop",
+  "level": "fault_enumeration: six malformation classes (short, lenlie, addr, field, inner, blob) over all uplink type codes plus noise and oversized packets, against configurations in which the addressed equipment exists and does not exist; after every stream two fresh SYS_PONG packets must surface through bidib_read_message, an occupancy report must reach bidib_get_segment_state (normal mode) and bidib_stop must leave no lock held and no thread unjoined",
+  "note": "memory errors are visible only where ASan/UBSan can see them (heap, stack, globals; not reads of uninitialised memory); the probe is sent twice because a packet directly behind line noise may legitimately be merged into the corrupted fragment",
+ },
 }
 NOT_YET = {}
